@@ -921,8 +921,9 @@ def run_C15(ctx):
             progs["when-let"] = "rule r {\nwhen this exists {\nlet v = %s\n%s\n}\n}\n" % (q, clause("%v"))
             progs["param"] = "rule f(p) {\n%s\n}\nrule r {\nf(%s)\n}\n" % (clause("%p"), q)
         if skip_empty_exception and not q.endswith("]"):
-            # the documented exception is the BARE variable only: `%v[*] empty` is the clause `q[*] empty`
-            progs["star-inline"] = "rule r {\n%s\n}\n" % clause(q + "[*]")
+            # the documented exception is the BARE variable only. The `[*]` after a variable head is the one the parser
+            # inserts anyway (`%v.a` is `%v[*].a`) and retrieval skips it, so `%v[*] empty` is the clause `q empty` in place
+            progs["star-inline"] = "rule r {\n%s\n}\n" % clause(q)
             progs["star-let"] = "let v = %s\nrule r {\n%s\n}\n" % (q, clause("%v[*]"))
             progs["star-rule-let"] = "rule r {\nlet v = %s\n%s\n}\n" % (q, clause("%v[*]"))
         progs["unused"] = "let u = zz[ q == 1 ].w\nlet u2 = parse_int(\"x\")\nrule r {\nlet u3 = join(zz, \",\")\n%s\n}\n" % clause(q)
@@ -988,7 +989,7 @@ def run_C15(ctx):
             if k in idx and not str(st("star-inline")).startswith("ERR"):
                 res.stats["c15-site:" + k] += 1
                 if st(k) != st("star-inline"):
-                    res.judge_failures.append({"what": "`%%v[*] %s` is %s but `%s[*] %s` in place is %s (only the bare variable tests the result set)" % (op, st(k), q, op, st("star-inline")),
+                    res.judge_failures.append({"what": "`%%v[*] %s` is %s but `%s %s` in place is %s (only the bare variable tests the result set)" % (op, st(k), q, op, st("star-inline")),
                                                "class": "c15-" + k, "rules": results[idx[k]]["case"]["rules"],
                                                "base_rules": results[idx["star-inline"]]["case"]["rules"], "data": results[idx[k]]["case"]["data"]})
         for k in idx:
@@ -2660,6 +2661,8 @@ def ref_function(name, args, raw_args):
     if name == "substring":
         i, j = raw_args[1], raw_args[2]
         out = []
+        if any(is_str(v) and any(ord(c) >= 128 for c in v) for v in args):
+            return ("maybe-err",)      # the statement defines substring on ASCII strings only (offsets are byte offsets)
         for v in args:
             if is_str(v) and all(ord(c) < 128 for c in v) and 0 <= i < j <= len(v):
                 out.append(v[i:j])
@@ -4024,6 +4027,8 @@ C08_NESTED_FILTER_PROBE = "rule r { " + "a[ " * 24 + "b == 1" + " ] !empty" * 24
 def c08_panic_class(cmd, text):
     import re as _re
     m = _re.search(r"panicked at ([^\n:]+:\d+)", text or "")
+    if m and "commands/reporters/validate/tf.rs" in m.group(1):
+        return "c08-tf-console-reporter"        # one site: the Terraform-plan console renderer (F-C08-3)
     if m:
         return "c08-panic-%s" % m.group(1).replace("guard/src/", "")
     return "c08-panic-%s-%s" % (cmd, _re.sub(r"[^a-zA-Z]+", "-", (text or "")[:50]).strip("-"))
@@ -4076,7 +4081,9 @@ def run_C08(ctx):
         fmt = rng.choice(["json", "json", "yaml-block", "yaml-flow"])
         data = json.dumps(doc) if fmt == "json" else _yaml.safe_dump(doc, default_flow_style=(fmt == "yaml-flow"), allow_unicode=True)
         other = gen.G(ctx.seed * 31 + i).rules_file(doc, depth=1) if rng.random() < 0.5 else data
-        kind = rng.choice(["v-rules", "v-rules", "v-data", "v-data", "v-both", "v-params", "v-payload", "t-rules", "t-tests", "pt", "rulegen", "nest", "cfn-odd", "cfn-odd", "trivial-doc"])
+        kind = rng.choice(["v-rules", "v-rules", "v-data", "v-data", "v-both", "v-params", "v-payload", "t-rules", "t-tests", "pt", "rulegen", "nest", "cfn-odd", "cfn-odd", "trivial-doc", "tf-odd"])
+        if i < 3:
+            kind = "tf-odd"          # the Terraform-plan console reporter always gets its canonical inputs (F-C08-3)
         mut = lambda t: c08_mutate(rng, t, other) if rng.random() < 0.8 else c08_mutate(rng, c08_mutate(rng, t, other).decode("utf-8", "replace"), other)
         s = {"kind": kind, "rules_text": rules, "data_text": data}
         sflags = ["--structured", "-o", rng.choice(["json", "yaml", "sarif", "junit"]), "-S", "none"] if rng.random() < 0.5 else \
@@ -4115,6 +4122,27 @@ def run_C08(ctx):
                 s.update(cmd="test", files={"r.guard": rules, "t.yaml": td}, argv=["test", "-r", "{DIR}/r.guard", "-t", "{DIR}/t.yaml"])
             else:
                 s.update(cmd="rulegen", files={"t.yaml": td}, argv=["rulegen", "-t", "{DIR}/t.yaml"])
+        elif kind == "tf-odd":
+            # documents shaped like `terraform show -json` plans (top-level `resource_changes`): the console reporter has a
+            # renderer of its own for them
+            addrs = ["aws_s3_bucket.b", "nodot", "module.m.aws_x.y", "", 5, None, "a."]
+            rcs = []
+            for k_ in range(rng.choice([1, 2, 3])):
+                rc = {"address": addrs[(i + k_) % len(addrs)] if i >= 3 else ["aws_s3_bucket.b", "nodot", "aws_s3_bucket.c"][i],
+                      "type": "aws_s3_bucket", "change": {"after": {"acl": rng.choice(["public", "private"]), "tags": ["a", "b"], "n": k_}}}
+                if rng.random() < 0.2:
+                    rc.pop("address")
+                if rng.random() < 0.2:
+                    rc["change"] = rng.choice([{}, {"after": None}, None, 1])
+                rcs.append(rc)
+            d2 = {"resource_changes": rcs if rng.random() < 0.9 else {"k": rcs[0]}, "format_version": "1.0"}
+            tf_rules = ["rule acl { resource_changes[*].change.after.acl == 'never' }\n",
+                        "rule acl_in { resource_changes[*].change.after.acl in ['never', 'x'] <<m>> }\n",
+                        "rule addr { resource_changes[*].address == 'zz'\nresource_changes[*].change.after.missing exists }\n",
+                        "rule tags { resource_changes[*].change.after.tags[*] == 'a'\nresource_changes[*].change.after.n > 5\nformat_version == '2' }\n"]
+            rr = (tf_rules[i] if i < 3 else "".join(rng.sample(tf_rules, rng.choice([1, 2, 3]))))
+            s.update(cmd="validate", files={"r.guard": rr, "d.json": json.dumps(d2)},
+                     argv=["validate", "-r", "{DIR}/r.guard", "-d", "{DIR}/d.json"] + (rng.choice([[], ["-S", "all"], ["-S", "all", "-v"], ["-o", "json"], ["--structured", "-o", "json", "-S", "none"]]) if i >= 3 else []))
         elif kind == "cfn-odd":
             # well-formed documents that are NOT well-formed templates: resources without a Type, with a Type or a
             # cdk path that is not a string, scalar resources - evaluated with rules that fail on them, console output
